@@ -295,12 +295,6 @@ Proof.
   - exact (eq_trans (rl_acc_ret (RgkFragment, Some w) (rgl_fragment_tail LP) r')
                     (eq_sym (rg_seq_assoc' _ _ _ r'))).
 Qed.
-Lemma rgl_def_fragment_desc d0 r :
-  rl_acc (rgl_definition LP) ((TkStringValue, d0) :: (TkName, pkw_fragment) :: r) = rgl_fragment_rest ((TkName, pkw_fragment) :: r).
-Proof.
-  rewrite (rgl_fragment_rest_eq pkw_fragment r eq_refl).
-  exact (rl_acc_ret (RgkFragment, Some pkw_fragment) (rgl_fragment_tail LP) r).
-Qed.
 
 Lemma rgl_def_optype w r : rg_is_optype (TkName, w) = true ->
   rl_acc (rgl_definition LP) ((TkName, w) :: r) = rgl_operation_p ((TkName, w) :: r).
@@ -336,12 +330,14 @@ Proof.
     - discriminate Hd.
     - subst d. apply (rl_post_ext (rg_seq (rg_sat (rg_is_kw rg_s_fragment)) rgl_fragment_rest)).
       + rewrite Es, rgl_def_fragment_name. reflexivity.
-      + apply (proj2 (rl_sim_fragment_definition f (rg_is_kw rg_s_fragment)) s u s' E Hok Ht). rewrite Es. reflexivity.
-    - destruct r as [|[k2 d2] r2]; [discriminate Hd|]. destruct Hd as [<- Hok2].
+      + apply (proj2 (rl_sim_fragment_definition f) s u s' E Hok Ht). rewrite Es. reflexivity.
+    - (* a string, then `fragment`: not a Definition, and fragment_definition reports the string *)
+      destruct r as [|[k2 d2] r2]; [discriminate Hd|]. destruct Hd as [<- Hok2].
       pose proof (rl_second_is_name _ _ Hok2 eq_refl) as ->.
-      apply (rl_post_ext (rg_seq (rg_sat (rg_is TkStringValue)) rgl_fragment_rest)).
-      + rewrite Es, rgl_def_fragment_desc. reflexivity.
-      + apply (proj2 (rl_sim_fragment_definition f (rg_is TkStringValue)) s u s' E Hok Ht). rewrite Es. reflexivity. }
+      assert (Hk : tok_kind t = TkStringValue).
+      { pose proof (rl_sigs_head _ _ Hinv Hc) as Hh. rewrite Es in Hh. destruct (tkind_eqb (tok_kind t) TkEof); [discriminate|].
+        injection Hh as Hh1 _ _. congruence. }
+      apply rl_post_dirty; [eapply rl_fragment_definition_after_string; eauto|]. rewrite Es. reflexivity. }
   destruct (p_str_eqb def pkw_input) eqn:K5.
   { apply p_str_eqb_eq in K5. subst def. rl_kw_def (rl_sim_input_object_type_definition f) rgl_def_input. }
   destruct (p_str_eqb def pkw_interface) eqn:K6.
@@ -536,9 +532,8 @@ Proof.
     unfold rgl_desc_then.
     assert (Hdef : rgl_ts_def_kw LP r0 = RgOk x -> (length (snd x) < length ((TkStringValue, w) :: r0))%nat).
     { intros H. apply rgl_ts_def_kw_progress in H. change (length ((TkStringValue, w) :: r0)) with (S (length r0)). lia. }
-    destruct r0 as [|[k2 w2] r']; [exact Hdef|]. destruct k2; try exact Hdef.
-    destruct (_ && _); [|exact Hdef].
-    apply (Htail _ _ r' rgl_fragment_tail_nolonger). cbn [length]. lia.
+    (* rgl_desc_fragment is off in rgl_parser: a string followed by `fragment` is a type-system keyword lookup too *)
+    destruct r0 as [|[k2 w2] r']; [exact Hdef|]. destruct k2; exact Hdef.
 Qed.
 
 (* ------------------------------------------------------------------ document.rs: one step of the definition loop *)
